@@ -104,13 +104,15 @@ def check(files, truth, run, rundir):
                         imp = "+" if cf > cr else "-"
                         # introns shared with reference transcripts inherit the annotated strand: only judge models
                         # none of whose introns is annotated on the other strand
-                        ann_other = False
+                        # (an intron annotated on BOTH strands gives no preference: there the genome decides)
+                        ann = {}
                         for rt in ref.values():
                             if rt["chr"] != r["chr"]:
                                 continue
                             ri = set((rt["exons"][i][1] + 1, rt["exons"][i + 1][0] - 1) for i in range(len(rt["exons"]) - 1))
-                            if ri & set(introns) and rt["strand"] != imp:
-                                ann_other = True
+                            for i_ in ri & set(introns):
+                                ann.setdefault(i_, set()).add(rt["strand"])
+                        ann_other = any(imp not in strands_ for strands_ in ann.values())
                         if r["strand"] != imp and not ann_other:
                             problems.append("%s%s: novel transcript %s reported on strand %s, its splice sites imply %s (%d fwd, %d rev)" % (
                                 pre, fn, tid, r["strand"], imp, cf, cr))
